@@ -286,6 +286,54 @@ def merge_located(out):
     out.parts["merge_located"] = {"cases": len(cases)}
 
 
+def merge_special(out):
+    """(a) members of an emulsion linked to an array: an in-place merge shows in the array row, a compiled merge written
+    into the array row shows in the member, and volume / centre are conserved along the whole sequence;
+    (b) small droplets far away from the origin: the centre is the volume-weighted mean also when the two centres differ
+    by less than 1e-5 of their coordinates, and a.merge(b) equals b.merge(a)"""
+    from fractions import Fraction
+
+    from droplets import DiffuseDroplet, Emulsion, SphericalDroplet
+
+    rng = np.random.default_rng(out.seed + 13)
+    for k in range(24):
+        cls = [SphericalDroplet, DiffuseDroplet][k % 2]
+        dim = 1 + k % 3
+        mk = lambda: (cls(rng.uniform(-4, 4, dim), float(rng.uniform(0.5, 2))) if cls is SphericalDroplet  # noqa: E731
+                      else cls(rng.uniform(-4, 4, dim), float(rng.uniform(0.5, 2)), float(rng.uniform(0.1, 1))))
+        fails = []
+        em = Emulsion([mk(), mk(), mk()])
+        vol0 = sum(d.volume for d in em)
+        mom0 = sum(d.volume * np.asarray(d.position) for d in em)
+        arr = em.get_linked_data()
+        em[0].merge(em[1], inplace=True)
+        if arr[0].tobytes() != em[0].data.tobytes():
+            fails.append("after an in-place merge of a linked member the linked array row differs from the member")
+        cm = compiled_merge(cls)
+        cm(arr[0], arr[2], arr[0])
+        if arr[0].tobytes() != em[0].data.tobytes():
+            fails.append("a compiled merge written into the linked array row does not show in the member")
+        if abs(em[0].volume - vol0) > 1e-12 * vol0 or np.max(np.abs(em[0].volume * np.asarray(em[0].position) - mom0)) > 1e-11 * (1 + np.abs(mom0).max()):
+            fails.append("volume / centre of mass not conserved along link -> in-place merge -> compiled merge")
+        # (b)
+        base = rng.uniform(500, 2000, dim) * rng.choice([-1, 1], dim)
+        ra, rb = float(rng.uniform(0.002, 0.01)), float(rng.uniform(0.002, 0.01))
+        pa = base + rng.uniform(-0.004, 0.004, dim)
+        pb = base + rng.uniform(-0.004, 0.004, dim)
+        a, b = SphericalDroplet(pa, ra), SphericalDroplet(pb, rb)
+        ab, ba = a.merge(b), b.merge(a)
+        va, vb = Fraction(ra) ** dim, Fraction(rb) ** dim
+        want = [float((va * Fraction(float(x)) + vb * Fraction(float(y))) / (va + vb)) for x, y in zip(pa, pb)]
+        if np.max(np.abs(np.asarray(ab.position) - want)) > 1e-12 * np.abs(base).max():
+            fails.append("centre of two small droplets far from the origin is not the volume-weighted mean")
+        if np.max(np.abs(np.asarray(ab.position) - np.asarray(ba.position))) > 1e-12 * np.abs(base).max():
+            fails.append("a.merge(b) and b.merge(a) give different centres")
+        out.evaluations += 1
+        if fails:
+            out.violation({"merge_special": {"k": k, "class": cls.__name__, "dim": dim}, "fails": sorted(set(fails))})
+    out.parts["merge_special"] = {"cases": 24}
+
+
 def run(out: core.Outcome) -> None:
     import multiprocessing as mp
 
@@ -338,6 +386,7 @@ def run(out: core.Outcome) -> None:
             out.violation(b)
     out.extra["random_real_valued_merge_trees"] = per * core.NCPU
     merge_located(out)
+    merge_special(out)
     out.explanation = out.rule
     out.assumptions = [
         "lattice radii/positions (integers) so that the spec's power sums are exact; real-valued inputs only sampled",
